@@ -63,6 +63,9 @@ def value_pool(rng, mod):
         lambda: OpCode("OP", rng.randrange(256), {"SA": 1}), lambda: Enum({"inner": rng.randrange(5)}),
         lambda: some_function, lambda: SomeClass, lambda: SomeClass().meth, lambda: len,
     ]
+    # values that cannot be printed (an OpCode whose code is not a number, an object whose __str__ / __repr__ raise): an
+    # enumeration stores and returns them like any other value, and refuses / accepts names as for any other value
+    kinds[10:10] = [lambda: OpCode("OP", rng.choice([None, 2.5, "2A"]), {}), lambda: Grumpy(), lambda: (OpCode("OP", None, {}),), lambda: {"nested": Grumpy()}]
     return kinds
 
 
@@ -70,6 +73,33 @@ def kind_name(v):
     if callable(v):
         return "callable:" + type(v).__name__
     return type(v).__name__
+
+
+def safe_repr(x):
+    try:
+        return repr(x)
+    except Exception:  # noqa: BLE001
+        return "<%s that cannot be printed>" % type(x).__name__
+
+
+class Grumpy:
+    def __str__(self):
+        raise TypeError("this value cannot be printed")
+
+    __repr__ = __str__
+
+    def __format__(self, spec):
+        raise TypeError("this value cannot be formatted")
+
+
+def state_of(v):
+    """what a value looks like from outside, for values with state of their own (OpCode: name, code, service action names)"""
+    if type(v).__name__ == "OpCode":
+        try:
+            return (v.name, v.value, tuple(sorted(v.serviceaction.keys)))
+        except Exception:  # noqa: BLE001
+            return None
+    return None
 
 
 class StrSub(str):
@@ -106,7 +136,15 @@ def step_hash(step):
     return sum(map(ord, step))
 
 
+VALUE_STATES = {}  # id(value) -> (value, its state when it was first supplied)
+
+
 def compare(ctx, enums, wit, step):
+    for vv, was in list(VALUE_STATES.values()):
+        if state_of(vv) != was:
+            ctx.fail("C18:supplied_value_changed", "an OpCode supplied as a value now shows %r, it was supplied as %r (after %s)" % (state_of(vv), was, step), wit)
+            VALUE_STATES.clear()
+            break
     for idx, (E, model, form, holder) in enumerate(enums):
         if holder is not None:
             # the enumeration of an OpCode is one object: what was read from the property earlier and what it answers now
@@ -151,7 +189,7 @@ def compare(ctx, enums, wit, step):
             if not same and kind_name(v) == "callable:method":
                 same = got == v
             if not same:
-                ctx.fail("C18:lookup_value.%s" % kind_name(v), "enum %d: %s is %r, model %r after %s" % (idx, k, got, v, step), wit)
+                ctx.fail("C18:lookup_value.%s" % kind_name(v), "enum %d: %s is %s, model %s after %s" % (idx, k, safe_repr(got), safe_repr(v), step), wit)
         # reverse lookup for every model value and one absent value
         ints = [v for v in model.values() if isinstance(v, int)]
         # values next to the carried ones: 256 more or less (a byte seen as signed), complements, far away, other types
@@ -173,10 +211,10 @@ def compare(ctx, enums, wit, step):
             try:
                 got = E[probe]
             except Exception as e:  # noqa: BLE001
-                ctx.fail("C18:reverse_lookup_raises", "E[%r] raised %s" % (probe, type(e).__name__), wit, exc=e)
+                ctx.fail("C18:reverse_lookup_raises", "E[%s] raised %s" % (safe_repr(probe), type(e).__name__), wit, exc=e)
                 continue
             if got != want:
-                ctx.fail("C18:reverse_lookup.%s" % kind_name(probe), "enum %d: E[%r] = %r, model says %r after %s" % (idx, probe, got, want, step), wit)
+                ctx.fail("C18:reverse_lookup.%s" % kind_name(probe), "enum %d: E[%s] = %r, model says %r after %s" % (idx, safe_repr(probe), got, want, step), wit)
             ctx.count("reverse_lookups")
 
 
@@ -243,14 +281,24 @@ def run(shard, ctx):
     NAMES[:] = names
     kinds = value_pool(rng, (OpCode, Enum))
     for h in range(shard["n"]):
+        VALUE_STATES.clear()
         allow_callables = rng.random() < 0.3
-        ks = kinds if allow_callables else kinds[:10]
+        ks = kinds if allow_callables else kinds[:14]
         enums = []
         log = []
         for i in range(rng.randint(2, 4)):
             init = {}
             for nme in rng.sample(names, rng.randint(0 if i else 1, 8)):
                 init[nme] = rng.choice(ks)()
+            if enums and rng.random() < 0.4:
+                # a value of an earlier enumeration listed here too, under another name (one OpCode in two command sets)
+                donor = enums[rng.randrange(len(enums))][1]
+                if donor:
+                    init[rng.choice(names)] = rng.choice(list(donor.values()))
+                    ctx.count("values_shared_between_enumerations")
+            for vv in init.values():
+                if state_of(vv) is not None and id(vv) not in VALUE_STATES:
+                    VALUE_STATES[id(vv)] = (vv, state_of(vv))
             form = rng.choice(["dict", "kwargs", "opcode"])
             if form == "kwargs" and not init:
                 form = "dict"
